@@ -67,41 +67,51 @@ def objKindOf (s : String) : Except String ObjKind :=
   | "profile" => .ok .tableProfile
   | k => .error s!"unknown object kind {k}"
 
-/-- one operation of a store history: the model operation and whether its content is a well-formed object -/
+/-- one operation of a store history: the model operation and whether its content is a well-formed object;
+    `commit` (transactional store only) makes the staged operations reach the database -/
 structure HistOp where
-  op : StoreOp
+  op : TxnOp
   valid : Bool
   content : Bytes
 
 def histOpOf (j : Json) : Except String HistOp := do
+  let o ← strFld j "op"
+  if o == "commit" then return { op := .commit, valid := false, content := [] }
   let kind ← objKindOf (← strFld j "kind")
   let sum ← asBytes (fldD j "sum" (Json.str ""))
   let content ← asBytes (fldD j "content" (Json.str ""))
   let valid := (fldD j "valid" (Json.bool false)).getBool?.toOption.getD false
-  match ← strFld j "op" with
-  | "save" => return { op := .save kind sum content, valid := valid, content := content }
-  | "delete" => return { op := .delete kind sum, valid := false, content := [] }
+  match o with
+  | "save" => return { op := .op (.save kind sum content), valid := valid, content := content }
+  | "delete" => return { op := .op (.delete kind sum), valid := false, content := [] }
   | o => throw s!"unknown store op {o}"
 
 def jOptBytes06 : Option Bytes → Json
   | some b => jBytes b
   | none => Json.null
 
-/-- what the harness observes after a step, according to the map model -/
-def jStepExpect (H : Bytes → Bytes) (h : HistOp) (after : ObjStore) : Json :=
-  let got := after.get (h.op.key H)
-  let isSave := match h.op with
-    | .save .. => true
-    | .delete .. => false
-  Json.mkObj [("err", Json.bool false),
-    ("sum", if isSave && h.op.kind.byContent then jBytes (H h.content) else Json.null),
-    ("exists", Json.bool got.isSome),
-    ("stored", jOptBytes06 got),
-    ("typed", if isSave && h.valid then jOptBytes06 got else Json.null)]
-
 def jStoreState (s : ObjStore) : Json :=
   let l := (s.map fun (k, v) => (bytesToHex k, bytesToHex v)).mergeSort (fun a b => decide (a.1 ≤ b.1))
   Json.arr (l.map fun (k, v) => Json.arr #[Json.str k, Json.str v]).toArray
+
+/-- what the harness observes after a step, according to the model: `after` is what a read through the
+    store (through the transaction, for the transactional store) sees, `base` what the database holds -/
+def jStepExpect (H : Bytes → Bytes) (h : HistOp) (after base : ObjStore) : Json :=
+  match h.op with
+  | .commit =>
+    Json.mkObj [("err", Json.bool false), ("sum", Json.null), ("exists", Json.bool false), ("stored", Json.null),
+      ("typed", Json.null), ("committed", jStoreState base)]
+  | .op o =>
+    let got := after.get (o.key H)
+    let isSave := match o with
+      | .save .. => true
+      | .delete .. => false
+    Json.mkObj [("err", Json.bool false),
+      ("sum", if isSave && o.kind.byContent then jBytes (H h.content) else Json.null),
+      ("exists", Json.bool got.isSome),
+      ("stored", jOptBytes06 got),
+      ("typed", if isSave && h.valid then jOptBytes06 got else Json.null),
+      ("committed", Json.null)]
 
 /-! table profile values (op "profileobj"); floats travel as the hex of their 8 bytes -/
 
@@ -314,9 +324,21 @@ def handleC06 (op : String) (input impl : Json) : Except String Json := do
     let digests ← (← asArr digestsJ).mapM asBytes
     let table := (ops.zip digests).map fun (h, d) => (h.content, d)
     let H : Bytes → Bytes := fun c => ((table.find? (·.1 == c)).map (·.2)).getD []
-    let trace := storeTrace H [] (ops.map (·.op))
-    let final := storeRun H [] (ops.map (·.op))
-    let expSteps := (ops.zip trace).map fun (h, st) => jStepExpect H h st
+    -- the store the history ran on: a plain one (every call lands at once: the finite map) or a
+    -- transaction (calls are staged, read through, and reach the database at `commit`; the harness
+    -- ends every transactional history with a commit)
+    let transactional := (fldD input "store" (Json.str "mem")).compress == "\"txn\""
+    if !transactional && ops.any (fun h => match h.op with
+        | .commit => true
+        | _ => false) then throw "commit on a store that has no transactions"
+    let t0 : TxnStore := { base := [], staged := [] }
+    let trace : List (ObjStore × ObjStore) :=
+      if transactional then (txnTrace H t0 (ops.map (·.op))).map fun t => (t.view H, t.base)
+      else (storeTrace H [] (TxnOp.storeOps (ops.map (·.op)))).map fun s => (s, s)
+    let final :=
+      if transactional then (txnStep H (txnRun H t0 (ops.map (·.op))) .commit).base
+      else storeRun H [] (TxnOp.storeOps (ops.map (·.op)))
+    let expSteps := (ops.zip trace).map fun (h, st) => jStepExpect H h st.1 st.2
     let mj := jRes id (.ok (Json.mkObj [("steps", Json.arr expSteps.toArray), ("state", jStoreState final), ("digests", digestsJ)]))
     if resClass impl == "panic" then return reply mj false ["no-panic"]
     if resClass impl != "ok" then return reply mj false ["unexpected-error"]
@@ -326,12 +348,15 @@ def handleC06 (op : String) (input impl : Json) : Except String Json := do
     let stepViol : List String := ((ops.zip expSteps).zip steps).flatMap fun ((h, e), o) =>
       (if same o e "err" then [] else ["store-operation-succeeds"]) ++
       (match h.op with
-       | .save .. =>
+       | .op (.save ..) =>
          (if same o e "sum" then [] else ["save-returns-the-hash-of-the-content"]) ++
          (if same o e "stored" && same o e "exists" then [] else ["what-was-saved-reads-back-whatever-the-key-held"]) ++
          (if same o e "typed" then [] else ["saved-object-reads-back-and-re-encodes-to-what-was-written"])
-       | .delete .. =>
-         (if same o e "stored" && same o e "exists" then [] else ["delete-unbinds-the-key"]))
+       | .op (.delete ..) =>
+         (if same o e "stored" && same o e "exists" then [] else ["delete-unbinds-the-key"])
+       | .commit =>
+         -- C06_txn_commit_is_the_direct_history: every key holds what its last save was given
+         (if same o e "committed" then [] else ["committed-transaction-holds-what-each-save-was-given"]))
     let viol := stepViol.eraseDups ++
       (if steps.length == ops.length && digests.length == ops.length then [] else ["one-observation-per-operation"]) ++
       (if same v (implVal mj) "state" then [] else ["store-holds-the-last-write-of-each-key-and-nothing-else"])
